@@ -13,6 +13,7 @@ import (
 	"strings"
 	"sync"
 	"testing"
+	"testing/synctest"
 	"time"
 )
 
@@ -141,6 +142,8 @@ type c20Env struct {
 	epochs map[string]uint64
 	mu     sync.Mutex
 	log    []c20Bcast
+	// retention: the real expireStreams / removeChannels goroutines run (only inside a synctest bubble)
+	retention bool
 	// gate: when non-nil, called from inside HandlePublication (any goroutine) after recording.
 	gate func(ch int, pub *Publication)
 }
@@ -209,7 +212,8 @@ func (h *c20Handler) HandleLeave(string, *ClientInfo) error { return nil }
 var c20NodeOnce sync.Once
 var c20Node *Node
 
-func c20NewEnv(t *testing.T, cfgs []c20Raw, names []string) *c20Env {
+// c20EnsureNode creates the shared Node (call it outside any synctest bubble first).
+func c20EnsureNode(t *testing.T) {
 	c20NodeOnce.Do(func() {
 		n, err := New(Config{})
 		if err != nil {
@@ -217,6 +221,33 @@ func c20NewEnv(t *testing.T, cfgs []c20Raw, names []string) *c20Env {
 		}
 		c20Node = n
 	})
+}
+
+// startRetention runs the broker's own StreamTTL / MetaTTL sweeper goroutines. Must be called inside
+// a synctest bubble: their 1-second timers then fire on the bubble's fake clock, exactly when the
+// driver sleeps (op "xstreams"), and close() must be called before the bubble ends.
+func (e *c20Env) startRetention() {
+	e.retention = true
+	go e.b.mapHub.expireStreams()
+	go e.b.mapHub.removeChannels()
+}
+
+func (e *c20Env) close() { _ = e.b.Close(context.Background()) }
+
+// retentionTick lets the fake clock pass one second: both sweepers run their loop body once
+// (synctest.Wait returns when they are blocked on their timers again), then the clock base is
+// moved so that all stored deadlines keep their virtual distance.
+func (e *c20Env) retentionTick() {
+	e.snap()
+	time.Sleep(time.Second)
+	synctest.Wait()
+	delta := time.Now().UnixMilli() - e.base
+	e.mapDeadlines(func(d int64) int64 { return d + delta })
+	e.base += delta
+}
+
+func c20NewEnv(t *testing.T, cfgs []c20Raw, names []string) *c20Env {
+	c20EnsureNode(t)
 	e := &c20Env{t: t, node: c20Node, cfgs: cfgs, names: names, epochs: map[string]uint64{"\x00unused": 0}}
 	e.node.config.Map.GetMapChannelOptions = func(channel string) MapChannelOptions {
 		i := e.chIndex(channel)
@@ -266,6 +297,24 @@ func (e *c20Env) mapDeadlines(f func(int64) int64) {
 	}
 	if h.nextKeyExpireCheck != 0 {
 		h.nextKeyExpireCheck = f(h.nextKeyExpireCheck)
+	}
+	for k, d := range h.expires {
+		h.expires[k] = f(d)
+	}
+	for _, it := range h.expireQueue {
+		it.Priority = f(it.Priority)
+	}
+	if h.nextExpireCheck != 0 {
+		h.nextExpireCheck = f(h.nextExpireCheck)
+	}
+	for k, d := range h.removes {
+		h.removes[k] = f(d)
+	}
+	for _, it := range h.removeQueue {
+		it.Priority = f(it.Priority)
+	}
+	if h.nextRemoveCheck != 0 {
+		h.nextRemoveCheck = f(h.nextRemoveCheck)
 	}
 	h.Unlock()
 	e.b.resultCacheMu.Lock()
@@ -365,6 +414,10 @@ func (o c20Op) coq() string {
 		return vApp("OAdvance", vN(uint64(o.N)))
 	case "sweep":
 		return "OSweep"
+	case "xstreams":
+		return "OExpireStreams"
+	case "xchannels":
+		return "ORemoveChannels"
 	case "phase1":
 		return "OPhase1"
 	case "phase2":
@@ -554,6 +607,14 @@ func (e *c20Env) exec(o c20Op) (obs c20Obs) {
 		}
 	case "advance":
 		e.advance(o.N)
+		obs.Res = "RUnit"
+	case "xstreams": // one tick of both real retention sweepers (they commute); "xchannels" is its second label
+		if !e.retention {
+			panic("xstreams without retention goroutines")
+		}
+		e.retentionTick()
+		obs.Res = "RUnit"
+	case "xchannels":
 		obs.Res = "RUnit"
 	case "sweep":
 		e.snap()
